@@ -178,8 +178,12 @@ func c01tree(res *run.Result, v resp.Value) {
 		res.Violate("C01a:err:"+kindPath(v), "RESPBytes() of a constructed value must succeed", err.Error(), desc())
 		return
 	}
+	// the bytes belong to the caller: serializing other values afterwards (a scalar and an array, as a server
+	// does for its next replies) must not change them
+	proto.NewMessageWithType(proto.BulkMessage).SetBytes(bytes.Repeat([]byte{'#'}, len(want)+7)).RESPBytes()
+	buildProto(resp.Array(resp.Bulk(bytes.Repeat([]byte{'%'}, len(want)+3)), resp.Int(7))).RESPBytes()
 	if !bytes.Equal(got, want) {
-		res.Violate("C01a:"+kindPath(v)+":"+diffClass(got, want), "RESPBytes() == independent canonical encoding (length prefix == payload length)", fmt.Sprintf("got %s want %s", hexClip(got, 200), hexClip(want, 200)), desc())
+		res.Violate("C01a:"+kindPath(v)+":"+diffClass(got, want), "RESPBytes() == independent canonical encoding (length prefix == payload length), still so after other values were serialized", fmt.Sprintf("got %s want %s", hexClip(got, 200), hexClip(want, 200)), desc())
 		return
 	}
 	// (b) parse the canonical encoding and walk it through the public accessors
